@@ -306,11 +306,11 @@ EST_SPECS = ["Lasso", "WeightedLasso", "ElasticNet", "MCPRegression", "SparseLog
 def est_moves(name, p):
     mv = []
     if name == "LinearSVC":
-        mv = [dict(C=0.1), dict(C=1.0), dict(C=5.0), dict(tol=1e-6)]
+        mv = [dict(C=0.1), dict(C=1.0), dict(C=5.0), dict(tol=1e-6), dict(C=1e-6)]
     elif name == "SqrtLasso":
-        mv = [dict(alpha=0.1), dict(alpha=0.4), dict(alpha=0.02)]
+        mv = [dict(alpha=0.1), dict(alpha=0.4), dict(alpha=0.02), dict(alpha=100.0)]
     else:
-        mv = [dict(alpha=0.05), dict(alpha=0.3), dict(alpha=0.01)]
+        mv = [dict(alpha=0.05), dict(alpha=0.3), dict(alpha=0.01), dict(alpha=1000.0)]   # 1000: above the critical value
         if name == "ElasticNet":
             mv += [dict(l1_ratio=0.9), dict(l1_ratio=0.2)]
         if name in ("WeightedLasso",):
